@@ -24,6 +24,13 @@ TRUSTED = L.TRUSTED_COMMON + [
     "(translate_rng.ACCEPTS) must abort, 3 well-formed controls must be accepted",
     "equal draw sequences give equal pixels: torchvision / PIL / torch determinism (observed by comparing the two "
     "instances bit for bit, not proved)",
+    "aliasing probe: address ranges of the storages behind returned tensors / arrays against those of every tensor / "
+    "ndarray found through vars() of the transform objects (depth 4 through lists, dicts, helper objects); memory held "
+    "elsewhere (closures, module globals, C extensions) is only seen through the kept-output re-comparison",
+    "in-place-on-input classes (rnglive.INPLACE_ON_INPUT: KDImageNorm / KDImageRangeNorm with their documented default "
+    "inplace=True, KDThreshold / KDRandomThreshold, KDRandomErasing, PatchwiseRandomRotation, KDMagnitudeJitter(inplace=True), "
+    "KDColumnwiseNorm(inplace=True), KDBucketize) are listed by hand from the sources; compositions containing one are "
+    "exempt from the input-unchanged clause (never from the kept-output clause)",
 ]
 ASSUMPTIONS = [
     "compositions are object TREES (no transform instance shared between two places)",
@@ -34,8 +41,13 @@ ALLOWED_AXIOMS = []
 RULE = ("every registered class x every constructor-argument set as a leaf and inside KDComposeTransform, plus random "
         "trees (depth<=4) of compose / random-apply / patchwise / scheduled / transform-choice over shape-preserving "
         "leaves and foreign callables, plus the ready-made pipelines on PIL input; per case two global seeds, two "
-        "different histories (calls, earlier injections, worker_init_fn), 2-5 inputs, injected seed 0 in ~12% of the "
-        "cases; non-trivial = the injected "
+        "different histories (calls, earlier injections, worker_init_fn), 2-5 inputs OF ONE SHAPE on one object (the same "
+        "input repeated in ~20%), injected seed 0 in ~12% of the cases; every registered leaf class x argument set also on "
+        "float64 / float16 / bfloat16 / uint8 / int64 tensors and PIL modes L / RGBA, random trees on a non-default dtype "
+        "in ~40%; every returned output and recorded ctx is KEPT (the objects themselves) and compared again, after all "
+        "later calls and the re-injection, with the snapshot taken when it was returned, and its memory must not overlap "
+        "any tensor / array reachable from the attributes of the transform tree; the tensor handed in must be unchanged "
+        "unless the tree contains a class that works in place on its input (rnglive.INPLACE_ON_INPUT); non-trivial = the injected "
         "generator was drawn from and no call raised; distinct by (tree signature, input kind, history shapes)")
 
 
@@ -54,9 +66,21 @@ def _history(rng, allow_wi):
     return h
 
 
-def mk_case(rng, spec, kind, S):
+def pick_dtype(rng, kind):
+    """input dtype (tensor kinds) / image mode (PIL): float32 / RGB in ~60% of the cases"""
+    if rng.random() < 0.6:
+        return None
+    if kind == "pil":
+        return rng.choice(L.PIL_MODES[1:])
+    return rng.choice(L.TENSOR_DTYPES[1:])
+
+
+def mk_case(rng, spec, kind, S, dtype="pick"):
     wi = rng.random() < 0.3
-    return {"kind": "tree", "spec": spec, "input": kind, "S": S,
+    if dtype == "pick":
+        dtype = pick_dtype(rng, kind)
+    return {"kind": "tree", "spec": spec, "input": kind, "S": S, "dtype": dtype,
+            "xrep": rng.random() < 0.2,      # the same input several times in a row (same shape in any case)
             "seed": 0 if rng.random() < 0.12 else rng.randrange(10 ** 6),     # 0 is a seed like any other (falsy!)
             "ga": rng.randrange(10 ** 6), "gb": rng.randrange(10 ** 6), "ha": _history(rng, wi), "hb": _history(rng, wi),
             "wi": wi, "n": rng.choice([2, 3, 5]), "xseed": rng.randrange(10 ** 6)}
@@ -77,7 +101,10 @@ def class_cases(rng, info, reps=1):
         for _ in range(reps):
             for a, (kind, _) in enumerate(L.REG[name]):
                 S = 32 if kind == "pil" else 16
-                out.append(mk_case(rng, {"c": name, "a": a}, kind, S))
+                out.append(mk_case(rng, {"c": name, "a": a}, kind, S, dtype=None))
+                # every other input dtype / image mode (kept outputs, see run_impl)
+                for dt in (L.PIL_MODES[1:] if kind == "pil" else L.TENSOR_DTYPES[1:]):
+                    out.append(mk_case(rng, {"c": name, "a": a}, kind, S, dtype=dt))
                 if kind != "semseg":   # KDComposeTransform maps over tuples, semseg pairs are not composable that way
                     out.append(mk_case(rng, {"c": "KDComposeTransform", "k": [{"c": name, "a": a}]}, kind, S))
     for c in L.CONTAINERS:
@@ -146,26 +173,53 @@ def shrink(case):
         yield {**case, "wi": False}
     if case["n"] > 1:
         yield {**case, "n": case["n"] - 1}
+    if case.get("dtype") is not None:
+        yield {**case, "dtype": None}
+    if case.get("xrep"):
+        yield {**case, "xrep": False}
 
 
 # ---------------------------------------------------------------------------
 # running the real code
 # ---------------------------------------------------------------------------
-def _call(t, x):
+def _call(t, x, kept=None):
+    """one call; with `kept` the returned objects themselves (output, context, the tensor handed in) are retained
+    together with the snapshot taken at return time, to be looked at again after all later calls"""
     ctx = {}
+    xin = L.clone_input(x)
     try:
-        out = t(L.clone_input(x), ctx=ctx)
-        return [L.canon(out), L.canon(ctx)]
+        out = t(xin, ctx=ctx)
+        snap = [L.canon(out), L.canon(ctx)]
     except Exception as e:  # noqa
         return ["EXC", type(e).__name__, str(e)[:120]]
+    if kept is not None:
+        kept.append({"out": out, "ctx": ctx, "snap": snap, "xin": xin, "x": x,
+                     "alias": L.aliases_internal([out, ctx], t)})
+    return snap
 
 
-def _apply_history(t, h, kind, S, wi):
+def _kept_report(kept):
+    """look at the retained objects again: [index, what, at return time, now]"""
+    bad = []
+    for i, k in enumerate(kept):
+        now = [L.canon(k["out"]), L.canon(k["ctx"])]
+        if now != k["snap"]:
+            bad.append([i, "changed", k["snap"], now])
+        if k["alias"]:
+            bad.append([i, "alias", k["alias"], None])
+    return bad
+
+
+def _input_mutations(kept):
+    return [i for i, k in enumerate(kept) if L.canon(k["xin"]) != L.canon(k["x"])]
+
+
+def _apply_history(t, h, kind, S, wi, dtype=None):
     import numpy as np
     for step in h:
         if step[0] == "call":
             try:
-                t(L.make_input(kind, S, step[1]), ctx={})
+                t(L.make_input(kind, S, step[1], dtype), ctx={})
             except Exception:  # noqa
                 pass
         elif step[0] == "inject":
@@ -196,7 +250,8 @@ def run_impl(case):
     if case.get("kind") == "translator_selftest":
         return {"selftest": T.selftest()}
     spec, S, kind = case["spec"], case["S"], case["input"]
-    xs = [L.make_input(kind, S, case["xseed"] + i) for i in range(case["n"])]
+    dtype = case.get("dtype")
+    xs = [L.make_input(kind, S, case["xseed"] + (0 if case.get("xrep") else i), dtype) for i in range(case["n"])]
     obs = {}
     try:
         L.seed_globals(case["ga"])
@@ -206,8 +261,8 @@ def run_impl(case):
     except Exception as e:  # noqa
         return {"construct_error": f"{type(e).__name__}: {e}", "tb": traceback.format_exc()[-800:]}
     try:
-        _apply_history(A, case["ha"], kind, S, case["wi"])
-        _apply_history(B, case["hb"], kind, S, case["wi"])
+        _apply_history(A, case["ha"], kind, S, case["wi"], dtype)
+        _apply_history(B, case["hb"], kind, S, case["wi"], dtype)
     except Exception as e:  # noqa
         return {"history_error": f"{type(e).__name__}: {e}", "tb": traceback.format_exc()[-800:]}
     # slots as they are now ("Ctor k" = whatever generator the slot holds before the injection)
@@ -225,18 +280,23 @@ def run_impl(case):
         sp.n = 0
     L.seed_globals(case["ga"] + 17)
     trip = L.Tripwire()
-    obs["out_a"] = [_call(A, x) for x in xs]
+    kept_a, kept_b = [], []
+    obs["out_a"] = [_call(A, x, kept_a) for x in xs]
     touched = trip.touched()
     obs["sources"] = [list(sp.tag) for sp in spies + [inj] if sp.n > 0] + [["glob", g] for g in touched]
     obs["draws_inj"] = inj.n
     L.seed_globals(case["gb"] + 4242)
     trip = L.Tripwire()
-    obs["out_b"] = [_call(B, x) for x in xs]
+    obs["out_b"] = [_call(B, x, kept_b) for x in xs]
     obs["touched_b"] = trip.touched()
+    obs["input_mutated"] = _input_mutations(kept_a)
     # re-injection replays
     if not (case["wi"] and has_class(spec, "KDScheduledTransform")):
         A.set_rng(np.random.default_rng(case["seed"]))
-        obs["out_a2"] = [_call(A, x) for x in xs]
+        obs["out_a2"] = [_call(A, x, kept_a) for x in xs]
+    # everything that was returned so far is looked at again, after all later calls / injections
+    obs["kept_bad"] = [["A"] + r for r in _kept_report(kept_a)] + [["B"] + r for r in _kept_report(kept_b)]
+    obs["n_kept"] = len(kept_a) + len(kept_b)
     return obs
 
 
@@ -295,6 +355,17 @@ def oracle(case, obs):
         for i, (a, b) in enumerate(zip(obs["out_a"], obs["out_a2"])):
             if a != b:
                 return f"{sig}: re-injecting seed {case['seed']} does not replay input {i}: {str(a)[:300]} vs {str(b)[:300]}"
+    # an output (and its recorded context), once returned, is a function of the seed and the inputs so far
+    for who, i, what, then, now in sorted(obs.get("kept_bad", []), key=lambda r: r[2] != "changed"):
+        if what == "changed":
+            return (f"{sig} on {case.get('dtype') or 'default'} input: the value RETURNED by call {i} of instance {who} was "
+                    f"changed by a later call of the same object (the output aliases state of the transform): "
+                    f"at return {str(then)[:200]}, after the later calls {str(now)[:200]}")
+        return (f"{sig} on {case.get('dtype') or 'default'} input: the value returned by call {i} of instance {who} shares "
+                f"memory with internal state of the transform ({then}); a later call can overwrite it")
+    if obs.get("input_mutated") and not any(has_class(case["spec"], c) for c in L.INPLACE_ON_INPUT):
+        return (f"{sig}: the tensor handed to call {obs['input_mutated'][0]} was modified although no member of the "
+                f"composition works in place on its input ({sorted(L.INPLACE_ON_INPUT)})")
     return None
 
 
@@ -320,6 +391,9 @@ def features(case, obs):
         yield "kind=" + str(case.get("kind"))
         return
     yield "input=" + case["input"]
+    yield "dtype=" + str(case.get("dtype") or "default")
+    yield "xrep=%s" % bool(case.get("xrep"))
+    yield "kept=%d" % min(obs.get("n_kept", 0), 12)
     yield "root=" + case["spec"]["c"]
     yield "nodes=%d" % min(L.spec_size(case["spec"]), 12)
     yield "wi=%s" % case["wi"]
@@ -335,4 +409,4 @@ def nontrivial_key(case, obs):
         return None
     if obs.get("draws_inj", 0) == 0 or any(o[0] == "EXC" for o in obs["out_a"]):
         return None
-    return (L.spec_sig(case["spec"]), case["input"], len(case["ha"]), len(case["hb"]), case["wi"])
+    return (L.spec_sig(case["spec"]), case["input"], case.get("dtype"), len(case["ha"]), len(case["hb"]), case["wi"])
